@@ -96,8 +96,55 @@ def r71(facts, res):
         res.bad(R, 'recovery-on-arm/coverage', loc_of(b, lh), 'Error arm does not distinguish empty from non-empty repairs (%s)' % seen)
 
 
+FACTS_72 = []
+
+
+def zero_duration(t):
+    """a Duration that is zero whatever the input: Duration::new(0, 0), from_*(0), default(), or a constant"""
+    if t[0] == 'closure':
+        cb = FACTS_72[0].bodies.get(t[1]) if FACTS_72 else None
+        if cb is None:
+            return False
+        ps = Walker(cb, FACTS_72[0], max_paths=64).run()
+        return bool(ps) and all(p.end[0] == 'return' and zero_duration(p.end[1]) and p.end[1][0] != 'closure' for p in ps)
+    if is_call(t, 'new') and 'Duration' in t[1] and all(a == ('const', 0) for a in t[2]):
+        return True
+    if t[0] == 'call' and 'Duration' in t[1] and t[1].rsplit('::', 1)[-1].startswith('from_') and all(a == ('const', 0) for a in t[2]):
+        return True
+    if is_call(t, 'default') and not t[2]:
+        return True
+    return t[0] == 'cst' and 'Duration' in (t[1] or '')
+
+
+def measured(x):
+    """the amount taken off the budget is a measured time: it involves Instant::now() or Instant::elapsed()"""
+    return term_has(x, lambda y: is_call(y, 'now') or is_call(y, 'elapsed') or is_call(y, 'duration_since'))
+
+
+def shrinks(newB, B):
+    """the new budget is the old one minus a measured time, clamped at zero: never more than the old one"""
+    t = newB
+    if t == B:
+        return True
+    if t[0] != 'closure' and zero_duration(t):
+        return True
+    if is_call(t, 'saturating_sub') and t[2][0] == B and measured(t[2][1]):
+        return True
+    # the Some payload of budget.checked_sub(elapsed), reached on a path that matched Some
+    if t[0] == 'field' and t[1][0] == 'downcast' and is_call(t[1][1], 'checked_sub'):
+        cs = t[1][1]
+        return cs[2][0] == B and measured(cs[2][1])
+    if t[0] == 'call' and t[1].rsplit('::', 1)[-1] in ('unwrap_or_else', 'unwrap_or', 'unwrap_or_default') and is_call(t[2][0], 'checked_sub'):
+        cs = t[2][0]
+        if not (cs[2][0] == B and measured(cs[2][1])):
+            return False
+        return len(t[2]) == 1 or zero_duration(t[2][1])
+    return False
+
+
 def r72(facts, res):
     R = 'R7.2'
+    FACTS_72[:] = [facts]
     b = find_fn(facts, R, 'lr')
     tab, lookup, lh = arms(facts, R, b)
     on = [p for p in tab.get('Error', []) if p.calls(name='recover')]
@@ -114,8 +161,7 @@ def r72(facts, res):
             res.bad(R, 'deadline', loc_of(b, rc[1]), 'the deadline is not computed from the running budget variable')
             return
         newB = p.env.get((B[1], ()))
-        shape = newB is not None and is_call(newB, 'unwrap_or_else') and is_call(newB[2][0], 'checked_sub') and newB[2][0][2][0] == B \
-            and is_call(newB[2][0][2][1], 'sub')
+        shape = newB is not None and shrinks(newB, B)
         if shape:
             okb += 1
         else:
